@@ -124,6 +124,46 @@ DESC = {
  "C19-m5": ("src/state.rs stabilise_start: Stabilising flag set after observers are linked", "height-limit panic while linking a new observer whose too-tall subtree is under a non-last input: dropping afterwards panics"),
  "C19-m6": ("src/node.rs: same-state assertion only for the first rhs of a bind", "bind closure returns a node of another state on a later run"),
  "C20-m5": ("src/node.rs change_child_bind_rhs: remove_parent before the 'same node' early return", "bind closure re-runs and returns the identical (memoised) node"),
+ "C01-m7": ("src/node.rs, two sites: recompute_one (MapRef) reads did_change without re-arming it AND became_unnecessary no longer resets it", "map_ref with a parent; a write with equal projection; the map_ref part unobserved while its input stays needed; projection changes; observed again"),
+ "C01-m8": ("src/recompute_heap.rs set_max_height_allowed: height_lower_bound reset to queues.len()", "write to a needed variable, then set_max_height_allowed, then stabilise"),
+ "C02-m7": ("adjust_heights_heap.rs adjust_heights no longer re-links original_parent in the recompute heap AND node.rs state_add_parent does it only when the edge is stale", "bind switches to an existing taller rhs that has not changed yet; old rhs changed first; new rhs changes later in the same stabilise through a queued map2"),
+ "C02-m8": ("src/node.rs parent_iter_can_recompute_now: scope-settled guard rewritten as a list of kinds, MapWithOld forgotten", "map_with_old created on a bind's rhs reading an outside node taller than the change node; input written before the bind's lhs in one round"),
+ "C03-m7": ("src/node.rs: 'child already invalid' check moved from add_parent_without_adjusting_heights to state_add_parent (became_necessary path forgotten)", "consumer of a handed-out inner node is not needed when the bind re-runs and becomes needed afterwards: recomputed on a dead child (unwrap None) instead of ObservingInvalid"),
+ "C03-m8": ("src/node.rs try_fold_children (BindMain): rhs visited before the lhs-change child", "bind observed, unobserved, observed again with the same lhs; then lhs (itself a bind) and the outer input of the inner closure change in one stabilise"),
+ "C04-m7": ("src/node.rs: propagate_invalidity() moved from state_add_parent to change_child_bind_rhs (expert_add_dependency forgotten)", "expert node's child adds a dependency on an invalidated bind-created node (or a fresh map over it) during stabilise"),
+ "C04-m8": ("src/node.rs: expert_requeue helper extracted; expert_make_stale lost its is_necessary() condition", "make_stale from the child's function while the expert node is no longer needed (child observed on its own), after the node had recomputed once"),
+ "C05-m7": ("src/public.rs Observer::drop counts Rc references instead of the sentinel AND src/state.rs new_observers holds strong references", "observer (all its clones) dropped after observe() and before the next stabilise: stays linked for ever"),
+ "C05-m8": ("src/node.rs change_child_bind_rhs: force_necessary pin of the old rhs made conditional on a test evaluated too early (never true)", "bind switches to a node derived from its old rhs; later the last observer goes; later write"),
+ "C06-m7": ("src/node.rs, two sites: MapRef did_change not re-armed in recompute_one AND not reset in became_unnecessary (same pair as C01-m7)", "map_ref under a dependant; suppressed change; dependant unobserved; projection changes; observed again"),
+ "C06-m8": ("src/var.rs set_var_stabilise_end: early return when the deferred value equals the current one", "variable with a non-equality cutoff (Never / fn / boxed) written with an equal value from a node function"),
+ "C07-m7": ("src/node.rs, two sites: MapRef did_change not re-armed AND reset in became_unnecessary only when the node is pulled out of the heap", "as C01-m7: observers disagree after one stabilise"),
+ "C07-m8": ("src/var.rs Var::replace_with (first deferred write): closure gets &mut to the live value instead of a clone", "replace_with from a node function with a closure that edits its argument; the watch node is linked and computed later in the same stabilise"),
+ "C08-m7": ("src/state.rs stabilise_end: dead_vars teardown before the deferred writes AND src/var.rs did_set: missing watch node logs and returns", "deferred write from a node function and the last Var handle dropped in the same stabilise while the watch node stays observed"),
+ "C08-m8": ("src/var.rs Var::update (Stabilising arm): always starts from the live value, overwriting an earlier deferred write", "update() issued after another deferred write to the same variable in one stabilise"),
+ "C09-m7": ("src/node.rs run_on_update_handlers checks the observer state once AND internal_observer.rs run_all no longer checks per handler", "one observer with >= 2 subscriptions, one callback disallows the observer / drops its last handle"),
+ "C09-m8": ("src/internal_observer.rs unsubscribe: state match flattened, handler count decremented also for an unlinked observer", "two observers with subscriptions on one node; one disallowed (handle kept), stabilise, unsubscribe through the dead observer, write"),
+ "C10-m7": ("src/internal_observer.rs: handlers un-counted at disallow (not at unlink) AND unsubscribe treats Disallowed like InUse", "two subscribed observers of one node; one ends; its token unsubscribed before the next stabilise; node changes: sibling misses Changed"),
+ "C10-m8": ("src/public.rs Observer::drop: sentinel removed, strong_count(internal) <= 2", "observe, clone, drop one of two handles before the first stabilise"),
+ "C11-m7": ("src/internal_observer.rs: disallow_future_use un-counts the handlers at once AND remove_from_observed_node no longer does (run_all has them checked out)", "subscribed observer dropped / disallowed from inside one of its own handlers"),
+ "C11-m8": ("src/recompute_heap.rs set_max_height_allowed: height_lower_bound reset (same as C01-m8)", "var.set; set_max_height_allowed; stabilise"),
+ "C12-m7": ("src/public.rs Var::drop defers to dead_vars only while stabilising AND src/state.rs destroy no longer breaks the cycles of queued dead vars", "last Var handle dropped by a subscription handler (after that stabilise's teardown), no further stabilise, state dropped"),
+ "C12-m8": ("src/node.rs expert_remove_dependency: index-table swap and child swap both made conditional on is_necessary()", "expert node with >= 2 dependencies, not needed while its child is; a non-last dependency removed; its subgraph's handles dropped"),
+ "C13-m7": ("src/internal_observer.rs try_get_value: a gone state falls through to the value AND src/state.rs destroy disallows observers only when NotStabilising", "propagation-time panic caught; IncrState dropped before the observers; observers read"),
+ "C13-m8": ("src/state.rs: status assertion and transition moved after add_new_observers / unlink in stabilise_start", "handler panic after propagation; observer created afterwards on a node with a stale cache; refused stabilise links it"),
+ "C14-m7": ("src/kind/expert.rs pop_child_edge no longer sets force_stale AND node.rs expert_remove_dependency sets it only when necessary", "dependency removed (nothing added) while the expert node is not needed but its child runs; observed again"),
+ "C14-m8": ("src/node.rs add_parent_without_adjusting_heights: on-link edge callback only when the child was already necessary (same as C14-m2)", "add_dependency_with on a child that was computed earlier, is currently unneeded and not stale"),
+ "C15-m7": ("incremental-map lib.rs: with_old_input_output hands the slot to the operator AND incr_filter_mapi returns early for an empty input without storing it", "operator computed on M1, then the empty map, then M2 sharing identical entries with M1"),
+ "C15-m8": ("incremental-map lib.rs incr_unordered_fold_with: 'reverted' flag never cleared", "revert_to_init_when_empty = true (also partition): fill, empty, refill, further edit"),
+ "C16-m7": ("src/node.rs: on-link edge callback moved to state_add_parent AND kind/expert.rs observability_change no longer re-arms will_fire_all_callbacks", "output unobserved while a per-key result / shared node (kept alive elsewhere) changes; observed again"),
+ "C16-m8": ("src/node.rs expert_swap_children_except_in_kind: same-child branch returns before the parent-side swap", "shared node for >= 2 keys; a non-last sharing key removed; then the shared node changes"),
+ "C17-m7": ("incremental-map lib.rs: remembered input re-cloned only when didchange AND incr_filter_mapi sets did_change only when the output is touched", "filter_map(i): an edit whose keys are filtered out before and after, then an edit of another key"),
+ "C17-m8": ("src/kind/expert.rs observability_change: force_stale set when the node becomes unnecessary", "per-key operators (_cutoff variants): output unobserved and observed again: every per-key node recomputes"),
+ "C18-m7": ("symmetric_fold.rs: MergeOnce sets fused early AND SymmetricDiff trusts fused for a single lookup", "BTreeMap / Rc<BTreeMap>: the smaller of the two largest keys is absent from the other map"),
+ "C18-m8": ("btree_map.rs merge_shared_impl: fast path when one new input is empty drops that side's diff", "BTreeMap incr_merge: both filled, stabilise, one side set to the empty map"),
+ "C19-m7": ("adjust_heights_heap.rs set_height no longer records max_height_seen (state.rs set_height does; ensure_height_requirement forgotten)", "greatest height reached through the height-adjustment walk (bind switching to a taller rhs), then a shrink between the recorded mark and the real height"),
+ "C19-m8": ("node.rs adjust_heights_bind_lhs_change uses a new ensure_scope_height_requirement without the cycle check", "cycle closed through a bind's scope (node created in bind A's function later returned by bind B feeding A): reported as a height overflow"),
+ "C20-m7": ("src/public.rs weak_memoize_fn: entry().or_insert_with after a sweep AND WeakHashMap::garbage_collect sweeps only when full", "key created, all references dropped, created again, requested again while the second node is alive"),
+ "C20-m8": ("src/state.rs within_scope: fast path for Scope::Top outside stabilise", "memoised call that misses, made from top level through within_scope(<scope handed out by a bind closure>); that bind re-runs / is dropped"),
  "C20-m6": ("src/public.rs weak_memoize_fn: dead-entry path calls f without within_scope", "key re-created while its dead entry is still in the map, from inside a bind closure; that bind re-runs while the node is shared"),
 }
 OBSOLETE = {
@@ -157,7 +197,7 @@ for name in sorted(os.listdir(S)):
     what, needs = DESC.get(name, ("", ""))
     meta = {
         "name": name, "property": prop, "change": what, "needs_to_manifest": needs,
-        "source": "independent sub-agent given only the property text and a scratch worktree" + (" (second round: plus a focus area per mutant)" if name[-1] in "34" else " (third round: plus a flavour per mutant: ordering bug / second occurrence or degenerate shape)" if name[-1] in "56" else ""),
+        "source": "independent sub-agent given only the property text and a scratch worktree" + (" (second round: plus a focus area per mutant)" if name[-1] in "34" else " (third round: plus a flavour per mutant: ordering bug / second occurrence or degenerate shape)" if name[-1] in "56" else " (fourth round: flavours: two cooperating sites / rare variant plus a history of at least four steps)" if name[-1] in "78" else ""),
         "confirmed": bool(m and m.group(1) == "0" and m.group(2) == "0" and m.group(3) != "0"),
         "what_i_ran": [
             "tools/seed_confirm.sh: scratch worktree of /repo; clean tree: cargo test --test seed_demo passes; patch applied: cargo test --workspace --no-fail-fast --offline passes, seed_demo fails (see confirm.log)",
